@@ -10,6 +10,7 @@ EXPLANATION = ("C20: every allocation result is NULL-tested before it is derefer
                "local allocations are released on the exits taken when a later step fails."
                " Also: a destroyer that runs the fini slot is called only after the init slot (R8); an object a failing constructor step left registered is not freed (R9); transport teardown slots tolerate the state p_init leaves (R10); init slots do not release what fini releases again (R11); container growth is failure-atomic (R12); half-built reference-counted objects are released with the raw free (R13).")
 EXPLANATION += ' Round 3: a local allocation or delivered object is released or handed on along every path (R6); an owned field is released only after its replacement was allocated (R14).'
+EXPLANATION += " Round 5: a constructor that hands its half-built object to the reaper has stored every field the reap function dereferences (R18)."
 
 ALLOC = ("nni_alloc", "nni_zalloc", "nng_alloc", "nng_zalloc", "nni_strdup", "nng_strdup", "nni_strndup")
 # callees that dereference their pointer arguments (argument indexes)
@@ -1500,6 +1501,147 @@ def rule_r16(ctx):
         raise AnalysisBroken("only %d references taken on behalf of a new stream found" % n)
 
 
+# ---------------------------------------------------------------------------
+# R18: an object reaped from its own constructor carries what the reap function needs
+
+
+def _unguarded_field_derefs(prog, f, rec, G):
+    """pointer fields F of rec such that f dereferences obj->F (directly or through a local initialised from it) at a site
+    no NULL test of it dominates"""
+    ptr_fields = {x["n"] for x in prog.records.get(rec, {}).get("fields", []) if x.get("t", "").rstrip().endswith("*")}
+    holders = {}
+    for v in f.locals():
+        ds = G.var_defs(f, v)
+        if ds and all(x is not None and x.get("k") == "mem" and x.get("rec") == rec and x["f"] in ptr_fields for _, x in ds):
+            holders[v] = ds[0][1]["f"]
+    out = {}
+    for s in f.sites():
+        n = s.node
+        if n.get("k") != "mem" or not n.get("arrow"):
+            continue
+        b = f.expand(n["b"])
+        fld = None
+        if b.get("k") == "mem" and b.get("rec") == rec and b["f"] in ptr_fields:
+            fld = b["f"]
+        elif b.get("k") == "var" and b["n"] in holders:
+            fld = holders[b["n"]]
+        if fld is None:
+            continue
+
+        def tests(x, fld=fld, b=b):
+            if x.get("k") == "var" and b.get("k") == "var" and x["n"] == b["n"]:
+                return True
+            return x.get("k") == "mem" and x.get("rec") == rec and x["f"] == fld
+        nonnull = G.cond_edges(f, tests, want_nonzero=True)
+        if not (nonnull and G.dominated(f, (s.b, s.i), nonnull)):
+            out.setdefault(fld, s.line)
+    return out
+
+
+def rule_r18(ctx):
+    from .. import guards as G
+    r = ctx.rule("C20.R18", "T3", "a constructor that gives its half-built object to the reaper (directly, or through the object's "
+                 "close helper) when a later step fails has already stored every pointer field that the reap function "
+                 "dereferences without a NULL test -- a field the caller fills in only after the constructor returned is NULL "
+                 "on that path and the reaper thread crashes", floor=1)
+    prog = ctx.prog
+    # reap list -> reap function
+    reapfn = {}
+    for g, fields in prog.tables("nni_reap_list"):
+        t = strip_addr(fields.get("rl_func"))
+        if t is not None and t.get("k") == "fnref":
+            f = prog.fn(t["n"], g["file"]) or prog.fn(t["n"])
+            if f is not None and not f.cfg_failed:
+                reapfn[g["name"]] = f
+    if len(reapfn) < 5:
+        raise AnalysisBroken("only %d reap lists found" % len(reapfn))
+
+    def reaps_param(h, depth=0):
+        """{param index: reap list} if h hands one of its parameters to nni_reap (or to a same-file helper that does)"""
+        out = {}
+        params = [p_["n"] for p_ in h.params] if hasattr(h, "params") else []
+        for c in h.calls():
+            fnm = c.node.get("fn")
+            a = [h.expand(x) if x is not None else None for x in c.node["args"]]
+            if fnm == "nni_reap" and len(a) == 2:
+                lst = strip_addr(a[0])
+                v = a[1]
+                while v is not None and v.get("k") == "cast":
+                    v = h.expand(v["e"])
+                if lst is not None and lst.get("k") == "var" and v is not None and v.get("k") == "var" and v["n"] in params:
+                    out[params.index(v["n"])] = lst["n"]
+            elif fnm and depth < 2:
+                k = prog.resolve(h, fnm)
+                if k is not None and k is not h and k.file == h.file and k.static and not k.cfg_failed:
+                    sub = reaps_param(k, depth + 1)
+                    for i_, lst in sub.items():
+                        if i_ < len(a) and a[i_] is not None and a[i_].get("k") == "var" and a[i_]["n"] in params:
+                            out[params.index(a[i_]["n"])] = lst
+        return out
+    n = 0
+    for c0 in prog.functions:
+        if c0.cfg_failed or c0.file.endswith("_test.c"):
+            continue
+        # locals holding a fresh allocation
+        fresh = {}
+        for v in c0.locals():
+            ds = G.var_defs(c0, v)
+            if ds and all(d is not None and any(m.get("k") == "call" and m.get("fn") in ("nni_zalloc", "nni_alloc") for m in walk(d)) for _, d in ds):
+                fresh[v] = True
+        if not fresh:
+            continue
+        for c in c0.calls():
+            fnm = c.node.get("fn")
+            if not fnm:
+                continue
+            a = [c0.expand(x) if x is not None else None for x in c.node["args"]]
+            lst = None
+            obj = None
+            if fnm == "nni_reap" and len(a) == 2:
+                l_ = strip_addr(a[0])
+                v = a[1]
+                while v is not None and v.get("k") == "cast":
+                    v = c0.expand(v["e"])
+                if l_ is not None and l_.get("k") == "var" and v is not None and v.get("k") == "var" and v["n"] in fresh:
+                    lst, obj = l_["n"], v["n"]
+            else:
+                k = prog.resolve(c0, fnm)
+                if k is not None and k is not c0 and k.file == c0.file and k.static and not k.cfg_failed:
+                    for i_, l_ in reaps_param(k).items():
+                        if i_ < len(a) and a[i_] is not None and a[i_].get("k") == "var" and a[i_]["n"] in fresh:
+                            lst, obj = l_, a[i_]["n"]
+            if lst is None or lst not in reapfn:
+                continue
+            rf = reapfn[lst]
+            rec = None
+            for s_ in rf.sites():
+                if s_.node.get("k") == "decls":
+                    for d in s_.node["d"]:
+                        if d.get("rec") and d.get("init") is not None and rec is None:
+                            rec = d["rec"]
+            if rec is None:
+                continue
+            n += 1
+            need = _unguarded_field_derefs(prog, rf, rec, G)
+            bad = []
+            for fld, line in sorted(need.items()):
+                stores = [(t.b, t.i) for t in c0.assigns() if t.node["lhs"].get("k") == "mem" and t.node["lhs"].get("rec") == rec and
+                          t.node["lhs"]["f"] == fld and not is_null(c0.expand(t.node["rhs"]))]
+                if not stores or not c0.dominated_by((c.b, c.i), blocked=lambda b, i, e: (b, i) in stores):
+                    bad.append((fld, line))
+            if bad:
+                ctx.fail(r, c0, "%s reaps its object before %s is set" % (c0.name, ", ".join("%s.%s" % (rec, f_) for f_, _ in bad)), c.line,
+                         "%s hands the object it has just allocated to the reaper at line %s (%s); %s dereferences %s (line %s) without a "
+                         "NULL test, and %s has not stored it on that path: the reaper thread dereferences NULL when the "
+                         "step before fails (an allocation)" % (c0.name, c.line, fnm, rf.name, ", ".join("->" + f_ for f_, _ in bad),
+                                                               bad[0][1], c0.name))
+            else:
+                r.ob(c0, "%s line %s: the object reaches %s with %s set" % (fnm, c.line, rf.name,
+                                                                          ", ".join(sorted(need)) or "nothing needed"))
+    if n < 1:
+        raise AnalysisBroken("no constructor hands its own object to the reaper")
+
+
 def run(ctx):
     ctx.guard(rule_r1)
     ctx.guard(rule_r2)
@@ -1517,3 +1659,4 @@ def run(ctx):
     ctx.guard(rule_r6)
     ctx.guard(rule_r15)
     ctx.guard(rule_r16)
+    ctx.guard(rule_r18)
